@@ -76,12 +76,41 @@ statement; distinct = distinct hash of (kind, program, sources, environment or s
             "probe.c.switch_inside_execution",
             "probe.c.cancel_other",
             "probe.c.multi_worker_runs",
+            "probe.e.old_text_reloaded",
         ],
-        fault_kinds: vec!["hash_keys", "layout", "heap_reuse", "sched", "cancel_at_k", "cancel_other", "exec_error"],
+        fault_kinds: vec!["hash_keys", "layout", "heap_reuse", "trace_log", "sched", "cancel_at_k", "cancel_other", "exec_error"],
     }
 }
 
 const CONTROL_HASH: u64 = 0x0C01_7201;
+
+/// A logger that formats every record (so that Display implementations of logged values run)
+/// and throws the text away.  Installed once per process; the level is switched per run.
+struct SinkLogger;
+static SINK: SinkLogger = SinkLogger;
+static LOGGED: std::sync::atomic::AtomicU64 = std::sync::atomic::AtomicU64::new(0);
+
+impl log::Log for SinkLogger {
+    fn enabled(&self, _m: &log::Metadata) -> bool {
+        true
+    }
+    fn log(&self, record: &log::Record) {
+        use std::fmt::Write;
+        let mut s = String::new();
+        let _ = write!(s, "{}", record.args());
+        LOGGED.fetch_add(1 + (s.len() as u64 & 1), std::sync::atomic::Ordering::Relaxed);
+    }
+    fn flush(&self) {}
+}
+
+fn install_logger() {
+    let _ = log::set_logger(&SINK);
+    log::set_max_level(log::LevelFilter::Off);
+}
+
+fn set_log_env(env: &Env) {
+    log::set_max_level(if env.trace_log { log::LevelFilter::Trace } else { log::LevelFilter::Off });
+}
 
 #[derive(Clone, Debug, PartialEq, Eq)]
 pub struct Env {
@@ -90,14 +119,17 @@ pub struct Env {
     pub layout_seed: u64,
     /// Rust heap of the run's threads: false = system allocator, true = simulated LIFO arena
     pub lifo_heap: bool,
+    /// process log level while the run executes: false = off, true = trace (every `debug!` /
+    /// `trace!` of the library is formatted into a sink)
+    pub trace_log: bool,
 }
 
 impl Env {
     fn control() -> Env {
-        Env { hash_seed: CONTROL_HASH, policy: Policy::Compact, layout_seed: 0, lifo_heap: false }
+        Env { hash_seed: CONTROL_HASH, policy: Policy::Compact, layout_seed: 0, lifo_heap: false, trace_log: false }
     }
     fn to_json(&self) -> J {
-        json!({"hash_seed": self.hash_seed, "layout": self.policy.name(), "layout_seed": self.layout_seed, "lifo_heap": self.lifo_heap})
+        json!({"hash_seed": self.hash_seed, "layout": self.policy.name(), "layout_seed": self.layout_seed, "lifo_heap": self.lifo_heap, "trace_log": self.trace_log})
     }
     fn from_json(j: &J) -> Env {
         Env {
@@ -105,6 +137,7 @@ impl Env {
             policy: Policy::parse(j["layout"].as_str().unwrap_or("compact")).unwrap_or(Policy::Compact),
             layout_seed: j["layout_seed"].as_u64().unwrap_or(0),
             lifo_heap: j["lifo_heap"].as_bool().unwrap_or(false),
+            trace_log: j["trace_log"].as_bool().unwrap_or(false),
         }
     }
 }
@@ -166,6 +199,7 @@ fn load_exec_here(text: &str, source: &str, globs: &Globs, lazy: bool, cancel_at
 
 fn load_exec(text: &str, source: &str, globs: &Globs, lazy: bool, cancel_at: Option<u64>, env: &Env) -> Result<LoadExec, String> {
     alloc::begin_run(env.policy, env.layout_seed);
+    set_log_env(env);
     let (t, s, g) = (text.to_string(), source.to_string(), globs.clone());
     entropy::with_thread_env(env.hash_seed, env.lifo_heap, move || load_exec_here(&t, &s, &g, lazy, cancel_at))
 }
@@ -357,6 +391,7 @@ fn random_env(r: &mut Rng) -> Env {
         policy: Policy::ALL[r.below(5)],
         layout_seed: r.next(),
         lifo_heap: r.chance(1, 2),
+        trace_log: r.chance(1, 3),
     }
 }
 
@@ -512,6 +547,7 @@ fn check_b(inp: &Inputs, steps: &[Step], env: &Env) -> Result<(BStats, Option<Fo
         return Ok((st, None));
     }
     alloc::begin_run(env.policy, env.layout_seed);
+    set_log_env(env);
     let (inp2, steps2, refs2) = (inp.clone(), steps.to_vec(), refs.clone());
     let r = entropy::with_thread_env(env.hash_seed, env.lifo_heap, move || -> (BStats, Option<Found>) {
         let mut st = BStats::default();
@@ -771,6 +807,7 @@ fn check_c(inp: &Inputs, plan: &Plan, env: &Env) -> Result<(CStats, Option<Found
     let some_plain = plan.workers.iter().flatten().any(|t| t.cancel_at.is_none());
 
     alloc::begin_run(env.policy, env.layout_seed);
+    set_log_env(env);
     let inp_a = Arc::new(inp.clone());
     let plan_a = plan.clone();
     let hash = env.hash_seed;
@@ -901,6 +938,31 @@ fn check_c(inp: &Inputs, plan: &Plan, env: &Env) -> Result<(CStats, Option<Found
 }
 
 // ---------------------------------------------------------------------------------------------
+// (e) a long history of loads in one process: re-loading an old text must give the old AST
+
+fn load_only(text: &str) -> Result<Result<String, String>, String> {
+    alloc::begin_run(Policy::Compact, 0); // recycle the syntax-tree arena: nothing is live here
+    let t = text.to_string();
+    entropy::with_hash_seed(CONTROL_HASH, move || simrun::load(&t).map(|f| canon::cast(&f)))
+}
+
+fn check_e(target: &str, interim: &[String]) -> Result<Option<Found>, String> {
+    let first = load_only(target)?;
+    for t in interim {
+        let _ = load_only(t)?;
+    }
+    let again = load_only(target)?;
+    Ok(if first != again {
+        Some(Found {
+            class: "load-differs-after-history",
+            detail: format!("after {} other loads in the same process, loading the same text again gives a different AST or diagnostic", interim.len()),
+        })
+    } else {
+        None
+    })
+}
+
+// ---------------------------------------------------------------------------------------------
 // driver
 
 fn violation(sub: &str, inp: &Inputs, f: &Found, extra: J) -> Violation {
@@ -1024,6 +1086,7 @@ fn shared_state_scan() -> Vec<String> {
 
 pub fn run_shard(ctx: &ShardCtx, rep: &mut Report) {
     alloc::install();
+    install_logger();
     if ctx.shard == 0 {
         let hits = shared_state_scan();
         rep.add("shared_mutable_state_sites_in_repo", hits.len() as u64);
@@ -1041,6 +1104,10 @@ pub fn run_shard(ctx: &ShardCtx, rep: &mut Report) {
     };
     let n_envs = if ctx.tier == Tier::Quick { 5 } else { 10 };
     let mut minimised: std::collections::BTreeSet<String> = Default::default();
+    simrun::record_load_history();
+    // (sequence number of the recorded load, text, what loading it gave then)
+    let mut reservoir: Vec<(u64, String, Result<String, String>)> = Vec::new();
+    let mut my_runs = 0u64;
     for i in 0..total {
         if !ctx.mine(i) {
             continue;
@@ -1053,6 +1120,50 @@ pub fn run_shard(ctx: &ShardCtx, rep: &mut Report) {
             _ => "c",
         };
         let inp = make_inputs(seed, ctx.tier, sub != "a" || r.chance(1, 2));
+        // (e) remember this text; now and then re-load one that is hundreds of loads old
+        my_runs += 1;
+        if reservoir.len() < 64 || my_runs % 3 == 0 {
+            if let Ok(res) = load_only(&inp.text) {
+                let seq = simrun::load_counter();
+                if reservoir.len() >= 64 {
+                    reservoir.remove(0);
+                }
+                reservoir.push((seq, inp.text.clone(), res));
+            }
+        }
+        if my_runs % 6 == 0 {
+            let now = simrun::load_counter();
+            if let Some(pos) = reservoir.iter().position(|(s, _, _)| now - s >= 150 && now - s <= 700) {
+                let (seq, text, then) = reservoir.remove(pos);
+                if let Ok(again) = load_only(&text) {
+                    rep.count("probe.e.old_text_reloaded");
+                    rep.add("e.loads_in_between", now - seq);
+                    if again != then {
+                        if let Some(interim) = simrun::loads_between(seq, now) {
+                            // shrink the history of loads while it still reproduces
+                            let mut best = interim;
+                            loop {
+                                let half: Vec<String> = best.iter().step_by(2).cloned().collect();
+                                if half.len() < best.len() && matches!(check_e(&text, &half), Ok(Some(_))) {
+                                    best = half;
+                                } else {
+                                    break;
+                                }
+                            }
+                            let f = Found { class: "load-differs-after-history", detail: format!("after {} other loads in the same process, loading the same text again gives a different AST or diagnostic", best.len()) };
+                            rep.violation(Violation {
+                                class: f.class.to_string(),
+                                signature: "load-differs-after-history sub=e".into(),
+                                summary: format!("[C12e] {}", f.detail),
+                                scenario: json!({"sub": "e", "target": text, "interim": best}),
+                            });
+                        } else {
+                            rep.harness_error("C12e: a re-load differed but the load history no longer covers it".into());
+                        }
+                    }
+                }
+            }
+        }
         rep.count("runs");
         rep.count(&format!("runs.{}", sub));
         rep.count(&format!("kind.{}", inp.kind));
@@ -1070,6 +1181,8 @@ pub fn run_shard(ctx: &ShardCtx, rep: &mut Report) {
                         rep.add("fault.hash_keys.fired", st.hash_classes.saturating_sub(1) as u64);
                         rep.add("fault.layout.configured", envs.len() as u64);
                         rep.add("fault.layout.fired", envs.iter().filter(|e| e.policy != Policy::Compact).count() as u64);
+                        rep.add("fault.trace_log.configured", envs.iter().filter(|e| e.trace_log).count() as u64);
+                        rep.add("fault.trace_log.fired", envs.iter().filter(|e| e.trace_log).count() as u64);
                         if st.discarded {
                             rep.count("discarded.control_panic");
                             continue;
@@ -1247,6 +1360,12 @@ pub fn run_shard(ctx: &ShardCtx, rep: &mut Report) {
 
 pub fn replay(sc: &J) -> Result<Option<(String, String)>, String> {
     alloc::install();
+    install_logger();
+    if sc["sub"].as_str() == Some("e") {
+        let interim: Vec<String> = sc["interim"].as_array().map(|a| a.iter().filter_map(|x| x.as_str().map(|s| s.to_string())).collect()).unwrap_or_default();
+        let f = check_e(sc["target"].as_str().unwrap_or(""), &interim)?;
+        return Ok(f.map(|f| (f.class.to_string(), f.detail)));
+    }
     let inp = inputs_from_json(&sc["inputs"]);
     let env = Env::from_json(&sc["env"]);
     let f = match sc["sub"].as_str().unwrap_or("") {
